@@ -11,6 +11,7 @@ import (
 	"strings"
 
 	"github.com/goreleaser/nfpm/v2"
+	"github.com/goreleaser/nfpm/v2/files"
 )
 
 // buildNfpmBinary builds cmd/nfpm of the repository under test into dir
@@ -268,6 +269,24 @@ func cmdC15(tier string, seed int64, out, statsOut, replay string) {
 			d := pkgDesc{YAML: marshalConfig(&gen.cfg), Files: gen.files, Formats: rotatedFormats(g.rng)}
 			currentYAML = d.YAML
 			runPkgCase(w, fmt.Sprintf("g-%d", i), d, st, extra)
+		}
+		// forced: every combination of the identity components that take part in a file name or a Version field, for every
+		// format (the draws above are not relied on for them): prereleases with and without hyphens, with and without a release
+		k := 0
+		for _, pre := range []string{"", "rc1", "4-gdeadbee", "beta-2"} {
+			for _, rel := range []string{"", "2"} {
+				for _, meta := range []string{"", "git5"} {
+					for _, epoch := range []string{"", "3"} {
+						c := baseConfig("ident")
+						c.Version, c.VersionSchema, c.Prerelease, c.Release, c.VersionMetadata, c.Epoch = "1.2.3", "none", pre, rel, meta, epoch
+						c.Contents = files.Contents{{Source: "src/f1", Destination: "/usr/bin/ident"}}
+						d := pkgDesc{YAML: marshalConfig(&c), Formats: allFormats}
+						currentYAML = d.YAML
+						runPkgCase(w, fmt.Sprintf("ident-%d", k), d, st, extra)
+						k++
+					}
+				}
+			}
 		}
 		work, err := os.MkdirTemp("", "verif-bin-")
 		must(err)
